@@ -579,7 +579,59 @@ def canon_listing(listing):
     return sorted(re.sub(r"\._[0-9a-f-]{36}_", "._TMP_", p) for p in listing)
 
 
+def run_rmblock(case, ctx):
+    """Oracle-only family: a job created, written and REMOVED inside a buffered block (its document file
+    never existed before the block, the handles are made inside it), optionally re-used afterwards.  The
+    files left on exit must be those of the unbuffered run.  (Removal with a pre-existing document file or
+    through a handle made before the block raises BufferedError on the pinned tree - outside C05, which
+    quantifies over mapping operations - and is not generated.)"""
+    import contextlib
+    import signac
+
+    def one(buffered):
+        d = ctx.fresh_dir("c05rm")
+        try:
+            _reset_buffer_state()
+            p = signac.init_project(d)
+            res = "ok"
+            try:
+                with contextlib.ExitStack() as st:
+                    if buffered:
+                        for cap in case["caps"]:
+                            st.enter_context(signac.buffered(cap) if cap is not None else signac.buffered())
+                    for n, (wf, reuse) in enumerate(case["jobs"]):
+                        j = p.open_job({"n": n})
+                        for k, v in wf:
+                            j.doc[k] = v
+                        j.remove()
+                        if reuse:
+                            j2 = p.open_job({"n": n})
+                            for k, v in reuse:
+                                j2.doc[k] = v
+                            if buffered and dict(j2.doc()) != dict(reuse):
+                                res = "read-in-block:%r" % (j2.doc(),)
+            except Exception as e:  # noqa: BLE001
+                res = exc_name(e)
+            files = {}
+            for rel in _listing(d):
+                with open(os.path.join(d, rel)) as f:
+                    files[rel] = f.read()
+            return res, files
+        finally:
+            _reset_buffer_state()
+            ctx.cleanup(d)
+
+    u, b = one(False), one(True)
+    oracle = []
+    if u != b:
+        oracle.append("remove() inside a buffered block: the buffered run ends with %s and leaves %s, the unbuffered run "
+                      "ends with %s and leaves %s" % (b[0], json.dumps(b[1])[:300], u[0], json.dumps(u[1])[:300]))
+    return {"model": [], "impl": [], "oracle": oracle, "tags": ["rmblock"], "key": "rmblock" + json.dumps(case, sort_keys=True)}
+
+
 def run_case(case, ctx):
+    if "rmblock" in case:
+        return run_rmblock(case, ctx)
     cmds = case["cmds"]
     has_block = any(c.get("c") == "E" for c in cmds)
     runs = [Run(case, cmds, ctx, "as written").execute()]
@@ -676,6 +728,8 @@ def none_over_collection(case, result):
 
 
 def known_class(case, result):
+    if "rmblock" in case:
+        return None
     multi = multi_object_files(case)
     noop = noop_on_absent_doc(case, result)
     nulls = none_over_collection(case, result)
@@ -1057,7 +1111,21 @@ def setter_cases(rng, n):
         yield dict(layout, cmds=with_observations(layout, body + tail, rng.choice(["end", "end", "self"])))
 
 
+def rmblock_cases(rng, n):
+    for _ in range(n):
+        jobs = []
+        for _j in range(rng.choice([1, 1, 2])):
+            wf = [[rng.choice(["x", "cfg", "a"]), rng.choice([1, {"q": [1, 2]}, "s"])] for _ in range(rng.choice([0, 1, 2]))]
+            reuse = [[rng.choice(["y", "x"]), rng.choice([2, [3], None])]] if rng.random() < 0.6 else []
+            jobs.append([wf, reuse])
+        # default capacity only: with a small capacity the document is flushed to disk inside the block and the
+        # removal then belongs to the situations the pinned tree answers with BufferedError (see run_rmblock)
+        yield {"rmblock": 1, "jobs": jobs, "caps": [None] + ([None] if rng.random() < 0.3 else [])}
+
+
 def generate(tier, rng):
+    for c in rmblock_cases(rng, 40 if tier == "quick" else 400):
+        yield c
     for c in exhaustive(tier):
         yield c
     for c in setter_cases(rng, 300 if tier == "quick" else 3000):
@@ -1076,6 +1144,11 @@ def search(rng, deadline):
 
 
 def shrink(case):
+    if "rmblock" in case:
+        for i in range(len(case["jobs"])):
+            if len(case["jobs"]) > 1:
+                yield dict(case, jobs=case["jobs"][:i] + case["jobs"][i + 1:])
+        return
     cmds = case["cmds"]
     # drop one operation / observation
     for i, c in enumerate(cmds):
